@@ -95,7 +95,9 @@ impl Model for WordPiece {
 
                 if let Some(id) = self.token_to_id.get(prefix) {
                     on_token(offset, *id);
-                    offset += prefix.len();
+                    // Advance by the length of the matched text. `prefix`
+                    // also contains the "##" marker for subword tokens.
+                    offset += len;
                     remainder = remainder.split_at(len).1;
                     word_tokens += 1;
                     break;
